@@ -101,14 +101,86 @@ let run_case (line : string) : string =
           | _ -> [] in
         (s', tr @ tok)) (st, []) evs in
   let tr_s tr = if tr = [] then "-" else cat "," tr in
+  (* ---------- failure detection / handling (C07F cases): Model/CtrlFail.v over the real broker model ---------- *)
+  let (fail_mode, ttl, quorum) =
+    match (try split_ws (get "B") with Failure _ -> ["0"; "30"; "2"]) with
+    | [b; t; q] -> (b = "1", z_of_int (int_of_string t), nn (int_of_string q))
+    | _ -> failwith "B" in
+  let choices = if not fail_mode then [] else
+      Stdlib.List.map (fun e -> match Stdlib.String.split_on_char '.' e with
+          | [n; l] -> (int_of_string n, Stdlib.List.map (fun c -> if c = "-" then None else Some (nn (int_of_string c))) (Stdlib.String.split_on_char '/' l))
+          | _ -> failwith ("K entry " ^ e)) (split ',' (get "K")) in
+  let fsc = { CtrlFail.fc_fault = sc.sc_fault;
+              CtrlFail.fc_choices = (fun n -> match Stdlib.List.assoc_opt (int_of_nat n) choices with Some l -> l | None -> []) } in
+  let fst_ = ref (CtrlFail.finit (Broker.init_store false)) in
+  let fstep = CtrlFail.fstep ttl quorum in
+  let fail_obs () =
+    let s = !fst_.CtrlFail.fs_store in
+    let clock = int_of_z !fst_.CtrlFail.fs_clock in
+    let rows = Stdlib.List.concat_map (fun (a, m) ->
+        Stdlib.List.map (fun (r, t) -> Stdlib.Printf.sprintf "%d:%d@%d" (ni a) (ni r) (clock - int_of_z t)) m) s.Broker.st_failures in
+    let fd = Stdlib.List.map (fun a -> string_of_int (ni a)) s.Broker.st_failed in
+    Stdlib.Printf.sprintf "T=%d fl=%s fd=%s" clock (if rows = [] then "-" else cat "," rows) (if fd = [] then "-" else cat "," fd) in
+  let frun_traced (evs : CtrlFail.fevent list) : string list =
+    Stdlib.List.fold_left (fun tr ev ->
+        let s = !fst_ in
+        let s' = fstep s ev in
+        fst_ := s';
+        let ans () = match s'.CtrlFail.fs_answers with a :: _ -> Some a | [] -> None in
+        let tok = match ev with
+          | CtrlFail.EProbe (_, a, ok) -> [Stdlib.Printf.sprintf "q.%d.%s" (ni a) (if ok then "ok" else "fail")]
+          | CtrlFail.EReport (c, a) ->
+            [Stdlib.Printf.sprintf "a.%d.%d.%s" (ni c) (ni a) (match ans () with Some (Broker.RBool true) -> "1" | _ -> "0")]
+          | CtrlFail.EGetFailures _ ->
+            (match ans () with
+             | Some (Broker.RList l) -> ["g." ^ (if l = [] then "-" else cat "+" (Stdlib.List.map (fun a -> string_of_int (ni a)) l))]
+             | _ -> ["g.?"])
+          | CtrlFail.EReplace (i, _) ->
+            (match Stdlib.List.nth_opt s.CtrlFail.fs_net (int_of_nat i) with
+             | None -> []
+             | Some a ->
+               [Stdlib.Printf.sprintf "x.%d.%s" (ni a)
+                  (match ans () with
+                   | Some (Broker.RRepl (Some r)) -> string_of_int (ni r)
+                   | Some (Broker.RRepl None) -> "-"
+                   | _ -> "err")])
+          | _ -> [] in
+        tr @ tok) [] evs in
   let steps = Stdlib.List.map trim (Stdlib.String.split_on_char '|' (get "P")) in
   let st = ref init in
+  let advance k = for _ = 1 to k do st := step !st (BrokerAdvance []) done in
   let outs = Stdlib.List.map (fun s ->
       match split_ws s with
-      | ["adv"; ids] ->
+      | "adv" :: ids :: fop ->
         let ms = Stdlib.List.map (fun x -> nn (int_of_string x)) (split ',' ids) in
         st := step !st (BrokerAdvance ms);
-        "A " ^ observe !st
+        if not fail_mode then "A " ^ observe !st
+        else begin
+          let ev = match fop with
+            | ["reg"; i] -> CtrlFail.ERegister (nn (int_of_string i), Some (nn (100 + int_of_string i)), None)
+            | ["ac"; n; pairs] ->
+              let ps = Stdlib.List.map (fun p -> match Stdlib.String.split_on_char ':' p with
+                  | [a; b] -> (nn (int_of_string a), nn (int_of_string b)) | _ -> failwith "pair") (split ',' pairs) in
+              CtrlFail.EOther (Broker.OAddCluster (nn 1, nn (int_of_string n), nn 1, ps))
+            | ["cfg"; v] -> CtrlFail.EOther (Broker.OChangeConfig (nn 1, true, nn (int_of_string v)))
+            | _ -> failwith ("fop " ^ s) in
+          ignore (frun_traced [ev]);
+          "A " ^ observe !st ^ " " ^ fail_obs ()
+        end
+      | [("tick" | "down" | "up") as kd; x] ->
+        let x = int_of_string x in
+        let ev = match kd with "tick" -> CtrlFail.ETick (nn x) | "down" -> CtrlFail.EDown (nn x) | _ -> CtrlFail.EUp (nn x) in
+        ignore (frun_traced [ev]);
+        "T " ^ fail_obs ()
+      | [("detect" | "handle") as kd; c; n0; addrs; k] ->
+        let c = nn (int_of_string c) and n0 = nat_of_int (int_of_string n0) in
+        let ((evs, nb), cr) =
+          if kd = "detect" then
+            CtrlFail.detect_round ttl quorum fsc c (Stdlib.List.map (fun x -> nn (int_of_string x)) (split ',' addrs)) n0 !fst_
+          else CtrlFail.handle_round ttl quorum fsc c n0 !fst_ in
+        let tr = frun_traced evs in
+        advance (int_of_string k);
+        Stdlib.Printf.sprintf "D tr=%s nb=%d cr=%d %s" (tr_s tr) (int_of_nat nb) (if cr then 1 else 0) (fail_obs ())
       | [("meta" | "mig") as kd; k; n0; addrs] ->
         let addrs = Stdlib.List.map (fun x -> nn (int_of_string x)) (split ',' addrs) in
         let k = nn (int_of_string k) and n0 = nat_of_int (int_of_string n0) in
